@@ -16,8 +16,9 @@
 /// ```
 pub struct NotDisplay;
 
-/// The field is private.
-/// ```compile_fail,E0616
+/// The field is private (no error code: a private tuple field gives E0616, a renamed / named private field E0609 - both mean the same here;
+/// the compiling twin shows the failure is not a mistake in the path).
+/// ```compile_fail
 /// let k = s3s::auth::SecretKey::from("secret");
 /// let _ = &k.0;
 /// ```
